@@ -152,7 +152,9 @@ def shard(i: int, n: int, tier: str, seed: int) -> Result:
                         continue
                     # Veltkamp's splitting needs 2 <= s <= p - 2 with s = ceil(p / 2)
                     # (Handbook of Floating-Point Arithmetic, Alg. 4.9/4.10), i.e. p >= 4
-                    if p < 4:
+                    # -- the literature's hypothesis; the function's own docstring states no precision precondition and at p = 2, 3 the
+                    # split degenerates gracefully (s = 1, 2: one part is zero or a single digit), so those precisions are compared too
+                    if p < 2:
                         res.count('pre_false:precision')
                         continue
                     if a != 0 and b != 0 and fd.expmin is not None and lsb_exp(a) + lsb_exp(b) < fd.expmin:
@@ -312,6 +314,30 @@ def shard(i: int, n: int, tier: str, seed: int) -> Result:
                     bad('frexp', 'REAL', (x,), f'({m}, {ex_})', 'frexp: mantissa * 2^exponent != x (or wrong special row)')
             except Exception as ex:
                 bad('frexp', 'REAL', (x,), None, f'raised: {type(ex).__name__}: {str(ex)[:150]}')
+        # -- the same decompositions under narrow float contexts: "performed exactly" means that what comes back recombines to the operand;
+        # a part the context cannot hold has to be an error (ctx.round(..., exact=True) raises), never a silently rounded part
+        narrow = [('IEEEContext(5, 7)', fp.IEEEContext(5, 7)), ('MPFloatContext(2)', fp.MPFloatContext(2)), ('MPSFloatContext(3, -3)', fp.MPSFloatContext(3, -3)),
+                  ('IEEEContext(4, 8, RTZ)', fp.IEEEContext(4, 8, fp.RM.RTZ)), ('MPFloatContext(1, RAZ)', fp.MPFloatContext(1, fp.RM.RAZ))]
+        wide_exp = [Float(c=c, exp=e) for c in (1, 3, 5, 7) for e in (-40, -21, -13, -6, 5, 9, 11, 13, 21, 37) if (c + e) % n == i]
+        for ctext, nctx in narrow:
+            for x in xs + wide_exp:
+                dx = to_val(x)
+                if dx[0] != 'fin' or dx[2] == 0:
+                    continue
+                v = -dx[2] if dx[1] else dx[2]
+                for fname, call, recombine in (
+                        ('frexp', lambda: core.frexp(x, ctx=nctx), lambda r: fr(r[1]).denominator == 1 and fr(r[0]) * Fraction(2) ** int(fr(r[1])) == v),
+                        ('modf', lambda: core.modf(x, ctx=nctx), lambda r: fr(r[0]) + fr(r[1]) == v),
+                        ('split', lambda: core.split(x, 0, ctx=nctx), lambda r: fr(r[0]) + fr(r[1]) == v)):
+                    try:
+                        r = call()
+                    except Exception:
+                        res.count(f'narrow_{fname}_raised')
+                        continue
+                    res.evaluations += 1
+                    res.nontrivial += 1
+                    if any(t.is_nar() for t in r) or not recombine(r):
+                        bad(fname, ctext, (x,), str(tuple(str(t) for t in r)), f'{fname}: parts returned under a narrow context do not recombine to the operand')
     return res
 
 
